@@ -68,8 +68,25 @@ func accessPath(v ssa.Value) LockKey {
 					continue
 				}
 				if al, ok := x.X.(*ssa.Alloc); ok {
-					// local variable cell (captured variable): identity = the cell
+					// local variable cell: a spilled parameter is the parameter;
+					// otherwise identity = the cell
+					if cv := cellValue(al); cv != nil {
+						v = cv
+						continue
+					}
 					v = al
+				}
+				if fv, ok := x.X.(*ssa.FreeVar); ok {
+					// captured cell: resolve to the enclosing function's cell / parameter
+					if b := (&apWalker{}).freeVarBinding(fv); b != nil {
+						if al, ok := b.(*ssa.Alloc); ok {
+							if cv := cellValue(al); cv != nil {
+								v = cv
+								continue
+							}
+							v = al
+						}
+					}
 				}
 			}
 		case *ssa.ChangeType:
